@@ -47,6 +47,10 @@ CLAIMED = {
  'C20': dict(text='Proof (Coq), all inputs: mul2 of two reals has the exact second-order variance for both estimated values, attribution to the union of influences, budget rss = u, the four preconditions; complex/mixed products as sums of real second-order products; % and fmod: Python value, components of x unchanged for every sign, errors exactly at y = 0; merge: value of a, components of both, raises beyond TOL; implicit: components are -u_i(F)/(dF/dx) at the returned point, RuntimeError on empty range / no sign change. Weight formulas, tolerances and value expressions regenerated from source each run. Convergence of the root loop, fn(x)=0 in all components, complex merge/implicit: correspondence (partial). Root at a bracket end refuted (known finding).',
              note='Coq kernel, Reals axioms/classic/funext, translator tools/tr_special.py, bit-exact correspondence incl. the Newton/bisection loop with fn evaluated by the kernel evaluator.',
              technique='Coq proof (vector algebra + LPU + ChainRule Den) over translator-generated formulas + bit-exact correspondence', ref='6 C20'),
+
+ 'C17': dict(text='Proof (Coq): the complete real budget/components is a permutation of one row per key of the independent and dependent vectors with the leaf uid and |u_component| (NoDup, exact length); root-sum-square = u(y) for uncorrelated influences (via the LPU theorem); trim/sort/reverse/max_number only filter, order and truncate (every number instance); influences=[...] and intermediate=True for real y; complex budgets under the pairing invariant, with the invariant derived from "both components present". Complex intermediate/influences rows, label texts, timsort: correspondence (partial). Four refuted cases (partial complex pair, real y with complex influence, components attribute error, zero rows for dependent influences of a complex y) are known findings.',
+             note='Coq kernel, Reals axioms/classic/funext, exact correspondence of all rows (labels, u by bits, uids, exception classes).',
+             technique='Coq proof (permutation/sortedness list lemmas over the kernel vectors, LPU) + exact row-by-row correspondence', ref='6 C17'),
 }
 NA_REASON = 'machinery for this property is not built yet in this revision (planned: see DESIGN.md section 6); not claimed until its check exists'
 m = {
